@@ -281,6 +281,9 @@ func (w *c14Store) ReadShelf(ctx context.Context, shelfName string, fn func(stoa
 	// no timer has been fired: the caller is the harness goroutine (Notify/Run/GetFailedEvents) or a retry goroutine
 	// that was just started; a timer has been fired: the harness waits, the caller is that retry goroutine
 	if fl == nil && c14Goid() == g.h.gid {
+		if g.injectReadFault(ctx, shelfName, fn, nil) {
+			return stoabs.DatabaseError(errC14Injected)
+		}
 		if err := w.enter(); err != nil {
 			return err
 		}
@@ -310,6 +313,9 @@ func (w *c14Store) ReadShelf(ctx context.Context, shelfName string, fn func(stoa
 	if !<-pk.release {
 		return errC14Dead
 	}
+	if g.injectReadFault(ctx, shelfName, fn, pk.flight) {
+		return stoabs.DatabaseError(errC14Injected)
+	}
 	if err := w.enter(); err != nil {
 		return err
 	}
@@ -331,6 +337,64 @@ func (w *c14Store) ReadShelf(ctx context.Context, shelfName string, fn func(stoa
 
 // kill stops the node: nothing of this generation touches the file any more; the file is closed.
 // Safe to call from several goroutines (later callers wait for the first to finish).
+// injectReadFault: the scripted outcome of the next attempt for this job is "readFault" - notifyNow cannot read its job
+// (a transient store fault): the attempt is logged, the receiver is not reached. fl == nil: harness goroutine (Notify/Run).
+func (g *c14Gen) injectReadFault(ctx context.Context, shelfName string, fn func(stoabs.Reader) error, fl *c14Flight) bool {
+	h := g.h
+	s := h.subOfShelf(shelfName)
+	if s < 0 || s >= h.nsubs {
+		return false
+	}
+	probe := &c14ProbeReader{}
+	_ = fn(probe)
+	if probe.key == nil {
+		return false // Run / GetFailedEvents iterate
+	}
+	r := h.refIndex(hash.FromSlice(probe.key))
+	if r < 0 {
+		return false
+	}
+	h.mu.Lock()
+	k := h.attempt[[2]int{s, r}]
+	o := h.outcome(s, r, k)
+	h.mu.Unlock()
+	if o != "readFault" {
+		return false
+	}
+	// the job as it is on the shelf (for the log); no job: notifyNow would return nil, nothing is consumed
+	ev := struct {
+		Type    string `json:"type"`
+		Retries int    `json:"retries"`
+	}{}
+	found := false
+	if err := g.store.enter(); err != nil {
+		return false
+	}
+	_ = g.inner.ReadShelf(ctx, shelfName, func(rd stoabs.Reader) error {
+		v, err := rd.Get(stoabs.BytesKey(probe.key))
+		if err == nil && json.Unmarshal(v, &ev) == nil {
+			found = true
+		}
+		return nil
+	})
+	g.rw.RUnlock()
+	if !found {
+		return false
+	}
+	h.mu.Lock()
+	h.attempt[[2]int{s, r}] = k + 1
+	h.ledger = append(h.ledger, fmt.Sprintf("%d.%d:%s:%d:%s", s, r, c14TypeName(ev.Type), ev.Retries, o))
+	h.calls = append(h.calls, [3]int{s, r, k})
+	h.callOut = append(h.callOut, o)
+	if fl != nil {
+		fl.outcome = o
+	} else if g.mode != "run" || ev.Retries+1 < maxRetries {
+		g.expect++ // Notify reschedules every non-fatal error; Run those with Retries < maxRetries
+	}
+	h.mu.Unlock()
+	return true
+}
+
 func (g *c14Gen) kill() {
 	g.killOnce.Do(func() {
 		g.rw.Lock()
@@ -374,6 +438,7 @@ type c14H struct {
 	g       *c14Gen
 	reject  bool
 	nDB     int
+	timedOut bool
 	full    bool
 	calls   []([3]int) // (s, r, attempt#) of every receiver call of the current history
 	callOut []string
@@ -517,15 +582,17 @@ func (h *c14H) receive(g *c14Gen, s int, ev Event) (bool, error) {
 			g.expect++
 		}
 	}
-	if o == "doneFinishFail" {
+	if o == "doneFinishFail" || o == "notDoneWriteFail" || o == "failWriteFail" {
 		h.failNextWrite = true
 	}
 	g.h.mu.Unlock()
 	switch o {
 	case "done", "doneFinishFail":
 		return true, nil
-	case "notDone":
+	case "notDone", "notDoneWriteFail":
 		return false, nil
+	case "failWriteFail":
+		return false, errors.New("scripted failure")
 	case "notDoneFin":
 		// while the receiver runs, another goroutine finishes this very job (protocol v2: the payload reply is handled
 		// - WritePayload, private.Finished - before handlePrivateTxRetry has returned)
@@ -552,6 +619,9 @@ func (h *c14H) receive(g *c14Gen, s int, ev Event) (bool, error) {
 
 func (h *c14H) waitFor(what string, pred func() bool) bool {
 	deadline := time.Now().Add(8 * time.Second)
+	if h.timedOut {
+		deadline = time.Now().Add(60 * time.Millisecond) // the implementation already failed to do what was expected once
+	}
 	for i := 0; ; i++ {
 		h.mu.Lock()
 		ok := pred()
@@ -564,7 +634,8 @@ func (h *c14H) waitFor(what string, pred func() bool) bool {
 		} else {
 			time.Sleep(50 * time.Microsecond)
 		}
-		if i%1000 == 999 && time.Now().After(deadline) {
+		if i%200 == 199 && time.Now().After(deadline) {
+			h.timedOut = true
 			return false
 		}
 	}
@@ -1110,7 +1181,7 @@ func (r *c14Run) drain(limit int) {
 var c14OutW = []struct {
 	o string
 	w int
-}{{"done", 25}, {"notDone", 18}, {"fail", 25}, {"failCtx", 5}, {"fatal", 8}, {"doneFinishFail", 7}, {"crash", 3}, {"notDoneFin", 4}}
+}{{"done", 25}, {"notDone", 18}, {"fail", 25}, {"failCtx", 5}, {"fatal", 8}, {"doneFinishFail", 7}, {"crash", 3}, {"notDoneFin", 4}, {"readFault", 4}, {"notDoneWriteFail", 3}, {"failWriteFail", 3}}
 
 func (r *c14Run) pickOutcome(allowFaults bool) string {
 	for {
@@ -1121,7 +1192,7 @@ func (r *c14Run) pickOutcome(allowFaults bool) string {
 		v := r.rng.Intn(t)
 		for _, x := range c14OutW {
 			if v < x.w {
-				if !allowFaults && (x.o == "crash" || x.o == "doneFinishFail") {
+				if !allowFaults && (x.o == "crash" || x.o == "doneFinishFail" || x.o == "readFault" || x.o == "notDoneWriteFail" || x.o == "failWriteFail") {
 					break
 				}
 				return x.o
@@ -1372,6 +1443,11 @@ func (r *c14Run) enumHistory(hist int, maxVariants int) {
 		if outs[k] == "done" {
 			vs = append(vs, variant{"finishFail", -1, k})
 		}
+		// a transient fault of the notifier's own store access at this attempt: reading the job / writing the failure back
+		vs = append(vs, variant{"readFault", -1, k})
+		if outs[k] == "notDone" || outs[k] == "fail" {
+			vs = append(vs, variant{"writeFail", -1, k})
+		}
 	}
 	if len(vs) > maxVariants {
 		r.rng.Shuffle(len(vs), func(i, j int) { vs[i], vs[j] = vs[j], vs[i] })
@@ -1385,6 +1461,12 @@ func (r *c14Run) enumHistory(hist int, maxVariants int) {
 			repl := "crash"
 			if v.kind == "finishFail" {
 				repl = "doneFinishFail"
+			}
+			if v.kind == "readFault" {
+				repl = "readFault"
+			}
+			if v.kind == "writeFail" {
+				repl = outs[v.call] + "WriteFail"
 			}
 			found := false
 			for i := range vb {
